@@ -71,9 +71,12 @@ TEXT = {
  "C11": {
   "level": "Theorems C11_readonly (in the model the read-only API consists of functions of the packet that return no packet) and C11_single_entry_maps (maps of "
            "at most one entry, the only ones the encoders still range over, have one iteration order up to permutation). That the Go code has no other "
-           "order- or state-dependence is decided on the implementation: 33 in-process encodings interleaved with read-only operations and 4 fresh processes per packet.",
+           "order- or state-dependence is decided on the implementation: 33 in-process encodings interleaved with read-only operations and 4 fresh processes per packet. "
+           "C11_api_writes_nothing: a write-set analysis of the source (tools/gosync/effects.go, regenerated on every run; all paths, in-package calls, closures, interface "
+           "dispatch) finds that none of the 188 methods of the read-only API stores into the packet, memory reachable from it or a package-level variable, and that no function "
+           "of the package keeps state in package-level variables, pools or caches.",
   "note": NOTE + " Go map iteration order and hash seeds are runtime behaviour the model cannot exhibit.",
-  "technique": "Coq proof (purity of the model, permutation lemma) + repeated/cross-process encoding oracle",
+  "technique": "Coq proof (purity of the model, permutation lemma) + static write-set analysis of the source as a checked obligation + repeated/cross-process encoding oracle",
  },
  "C12": {
   "level": "Theorem C12_refines: for every packet type and every finite history of its setters, the accessors of the model equal those of an independent "
@@ -155,15 +158,18 @@ TEXT = {
  "C13": {
   "level": "Partial. Theorem C13_schedules: on an abstract shared-memory machine, threads whose programs never write a shared location are race-free under "
            "every schedule and compute what they compute alone (proved for all programs, thread counts and schedules). That the Go read-only API "
-           "(WriteTo, String, Dump, WellFormed, accessors) satisfies the premise is a fact about Go memory accesses that the functional model cannot "
-           "exhibit; it is checked on the implementation by a race-detector campaign (8 goroutines per shared packet) on every run.",
+           "(WriteTo, String, Dump, WellFormed, accessors) satisfies the premise is decided on the source on every run by a write-set analysis (tools/gosync/effects.go: every "
+           "path, in-package call, closure and interface dispatch of the 188 read-only methods; no write to the receiver, memory reachable from it, or a package-level variable; "
+           "no pool, goroutine or channel anywhere in the package) - theorem C13_api_writes_nothing over the regenerated result. The analysis is a trusted over-approximation, "
+           "not a proof about Go's memory model; a race-detector campaign (8 goroutines per shared packet) runs on every check as the search.",
   "note": NOTE + " The Go memory model, runtime and standard library are outside the model.",
-  "technique": "Coq proof (schedule-quantified race freedom for read-only programs) + Go race detector campaign with byte comparison",
+  "technique": "Coq proof (schedule-quantified race freedom for read-only programs) + static write-set analysis of the source as a checked obligation + Go race detector campaign with byte comparison",
  },
  "C14": {
   "level": "Theorems C14_fresh / C14_owns (static provenance of the decoder IR: every byte-slice field any decoder stores is allocated during the call, so "
            "accessors do not depend on later writes to the input; the pre-repair Undefined decoder is rejected by the same check) and "
-           "C14_history_independent (a frame's decoding does not depend on earlier reads). Heap aliasing between Go packets is observed by the scribble "
+           "C14_history_independent (a frame's decoding does not depend on earlier reads), C14_no_global_state (static analysis of the source: no function of the package writes a "
+           "package-level variable, uses a pool or a cache). Heap aliasing between Go packets is observed by the scribble "
            "and pool oracles, not proved; provenance annotations of the primitives are hand-written.",
   "note": NOTE,
   "technique": "Coq proof (provenance analysis of the decoder IR) + scribble/pool aliasing oracle + correspondence",
